@@ -71,6 +71,13 @@ func (c *Conn) makeClientHello() (*clientHelloMsg, error) {
 	// 若用户指定了授信CA指示，则发送 trusted_ca_keys类型扩展
 	if len(config.TrustedCAIndications) > 0 {
 		// 发送扩展
+		// opaque SM3Hash[32]: a hash identifier of any other length would be sent as is and the
+		// peer's decoder, which reads exactly 32 bytes, refuses (or misreads) the whole ClientHello
+		for _, ta := range config.TrustedCAIndications {
+			if (ta.IdentifierType == IdentifierTypeKeySM3Hash || ta.IdentifierType == IdentifierTypeCertSM3Hash) && len(ta.Identifier) != 32 {
+				return nil, errors.New("tlcp: invalid TrustedCAIndications value")
+			}
+		}
 		hello.trustedAuthorities = config.TrustedCAIndications
 	}
 
